@@ -228,6 +228,32 @@ func TestC12Sweep(t *testing.T) {
 			}
 		}
 	}
+	// Aztec, explicit sizes, payloads that need maximal bit stuffing (runs of 0x00 / 0xFF): the largest accepted
+	// payload of each (size, percentage) and its neighbours
+	for l := -4; l <= 32; l++ {
+		if l == 0 || (l > 8 && l%4 != 0) {
+			continue
+		}
+		compact, n := l < 0, l
+		if compact {
+			n = -l
+		}
+		for _, pct := range []int{5, 33, 50, 100} {
+			for _, v := range []byte{0x00, 0xFF} {
+				k := ref.AztecTotalBits(compact, n)*100/(100+pct)/8 + 2
+				for ; k > 0; k-- {
+					a := AztecCase{Payload: BStr(bytesRepeat(v, k)), ECC: pct, Layers: l}
+					if bc, err, pv := aztecEncode(a); pv != nil || (err == nil && !nilBarcode(bc)) {
+						break
+					}
+				}
+				for d := 0; d < 3 && k-d > 0; d++ {
+					a := AztecCase{Payload: BStr(bytesRepeat(v, k-d)), ECC: pct, Layers: l}
+					cases = append(cases, C12Case{Sym: "aztec", Aztec: &a})
+				}
+			}
+		}
+	}
 	parallelFor(len(cases), 16, func(i int) {
 		if ct.Failed() {
 			return
@@ -246,4 +272,12 @@ func TestC12Sweep(t *testing.T) {
 	if ct.Failed() {
 		t.Fatalf("%s", ct.first)
 	}
+}
+
+func bytesRepeat(v byte, n int) []byte {
+	out := make([]byte, n)
+	for i := range out {
+		out[i] = v
+	}
+	return out
 }
